@@ -201,6 +201,30 @@ def evaluate(ck, recs):
     return rp, rt
 
 
+def generator_goals(recs):
+    """scenario kinds every run must contain (the world generator is random and time-dependent: run() tops the records up with
+    further harness runs until they are all present, so that a missing kind is a real loss of coverage, not bad luck)"""
+    aggc = [r for r in recs if r["alt"].startswith("aggregateCommit: genuine")]
+    tbs = [r for r in recs if r["k"] == "tb"]
+    return list((("a genuine aggregate commit on each side of the next-BFT-parameters bound",
+         any("next BFT parameters-1" in r["alt"] and r["impl"]["class"] == "ok" for r in aggc)
+         and any("exactly the height of the next BFT parameters" in r["alt"] for r in aggc)),
+        ("a valid successor that changes the BFT parameters, with the old validatorsHash as an alteration",
+         any(r["alt"] == "validatorsHash of the parameters before the change" for r in recs)),
+        ("a history block that casts no votes (maxHeightGenerated >= height) followed by headers of the same generator that "
+         "contradict it (the contradiction verdict is recomputed independently from the window)",
+         any("casting no votes" in r["alt"] for r in recs) and any(r["impl"]["class"] == "contradiction" for r in recs)),
+        ("a generator-key rotation (same addresses, order, weights) followed by blocks signed with the new and the retired key",
+         any(r["alt"] == "signed with the generator's retired key" for r in recs)
+         and any(r["alt"].startswith("none (valid successor rotating") and r["impl"]["class"] == "ok" for r in recs)),
+        ("a genuine aggregate commit whose signer weight is at or above the precommit threshold but below the certificate "
+         "threshold, and one exactly at the certificate threshold",
+         any("below the certificate threshold" in r["alt"] for r in recs)
+         and any("equal to the certificate threshold" in r["alt"] and r["impl"]["class"] == "ok" for r in recs)))) + [
+        ("tie-break cases through Executer.process with a valid and with at least two invalid competitors",
+         any("valid competing" in r["alt"] for r in tbs) and sum(1 for r in tbs if "valid competing" not in r["alt"]) >= 2)]
+
+
 def run(ck):
     ck.prove(extra_targets=["Corr/C03.vo"])
     binp = ck.go_build("c03")
@@ -211,6 +235,16 @@ def run(ck):
     if recs is None:
         return
     import os
+    for k in (1, 2, 3):
+        if all(ok for _, ok in generator_goals(recs)):
+            break
+        more = ck.run_harness(binp, args, out_name="cases_topup%d.jsonl" % k, env_extra={"VERIF_SEED": str(ck.seed * 1000 + k)})
+        if more is None:
+            return
+        for r in more:
+            r["world"] = r.get("world", 0) + 1000 * k
+        recs += more
+        ck.extra["generator_topup_runs"] = k
     evaluate(ck, recs)
     # corpus: alterations behind fixed findings must be exercised in every run and must be rejected
     cdir = os.path.join(os.path.dirname(os.path.dirname(os.path.dirname(os.path.abspath(__file__)))), "corpus", "C03")
@@ -250,21 +284,7 @@ def run(ck):
     ck.extra["generator_key_rotations"] = sum(1 for r in recs if r["alt"].startswith("none (valid successor rotating"))
     ck.extra["partial_signer_commit_cases"] = sum(1 for r in recs if "signer weight" in r["alt"])
     ck.extra["parameter_changing_successors"] = sum(1 for r in recs if r["alt"].startswith("none") and r["xe"]["params_changed"])
-    for name, ok in (("a genuine aggregate commit on each side of the next-BFT-parameters bound",
-                      any("next BFT parameters-1" in r["alt"] and r["impl"]["class"] == "ok" for r in aggc)
-                      and any("exactly the height of the next BFT parameters" in r["alt"] for r in aggc)),
-                     ("a valid successor that changes the BFT parameters, with the old validatorsHash as an alteration",
-                      any(r["alt"] == "validatorsHash of the parameters before the change" for r in recs)),
-                     ("a history block that casts no votes (maxHeightGenerated >= height) followed by headers of the same generator that "
-                      "contradict it (the contradiction verdict is recomputed independently from the window)",
-                      any("casting no votes" in r["alt"] for r in recs) and any(r["impl"]["class"] == "contradiction" for r in recs)),
-                     ("a generator-key rotation (same addresses, order, weights) followed by blocks signed with the new and the retired key",
-                      any(r["alt"] == "signed with the generator's retired key" for r in recs)
-                      and any(r["alt"].startswith("none (valid successor rotating") and r["impl"]["class"] == "ok" for r in recs)),
-                     ("a genuine aggregate commit whose signer weight is at or above the precommit threshold but below the certificate "
-                      "threshold, and one exactly at the certificate threshold",
-                      any("below the certificate threshold" in r["alt"] for r in recs)
-                      and any("equal to the certificate threshold" in r["alt"] and r["impl"]["class"] == "ok" for r in recs))):
+    for name, ok in generator_goals(recs)[:-1]:
         ck.obligations += 1
         if ok:
             ck.discharged += 1
